@@ -16,11 +16,14 @@ def run(ctx):
         for cls in rng.sample(textgen.CLASSES, rng.randrange(2, 6)):
             pool.append(textgen.make_secret(rng, cls))
         plains = ["".join(rng.choice("abcXYZ129!#") for _ in range(rng.choice([3, 8, 10]))) for _ in range(2)]
+        if rng.random() < 0.6:         # plaintexts that differ only by quote/bracket/terminator characters at their ends
+            stem = plains[0]
+            plains += [stem + rng.choice(";,}]\"'"), rng.choice("{[\"'") + stem, '"' + stem + '"']
         for p in plains:
             for _ in range(2):
                 pool.append(textgen.ref_encrypt9(p, rng.choice(textgen.ALPHA9)))
-            if rng.random() < 0.5:
-                pool.append(p)                       # the clear text itself counts as the same secret
+            if rng.random() < 0.5 and p[0] not in "{[\"'" and p[-1] not in ";,}]\"'":
+                pool.append(p)                       # the clear text itself counts as the same secret (enclosing characters are not part of a clear-text secret)
         n = rng.randrange(5, 40 if q else 300)
         lines, ms = [], []
         for _ in range(n):
